@@ -273,10 +273,11 @@ func appendAnalyticFunctionToListIfNotExist(list1 []parser.AnalyticFunction, lis
 	}
 
 	m1 := createMap(list1)
-	m2 := createMap(list2)
-	for k, v := range m2 {
+	for _, v := range list2 {
+		k := FormatFieldIdentifier(v)
 		if _, ok := m1[k]; !ok {
 			list1 = append(list1, v)
+			m1[k] = v
 		}
 	}
 
